@@ -104,7 +104,7 @@ def enclosing_statement(relpath: str, line: int) -> str:
     return "?"
 
 
-def make(targets: t.Sequence[str], timeout: int = 1500) -> dict:
+def make(targets: t.Sequence[str], timeout: int = 600) -> dict:
     """make the given .vo targets. Returns {ok, log, errors:[{file,line,stmt,msg}]}"""
     ensure_makefile()
     rc, out = sh(["make", "-j" + NPROC, "-k"] + list(targets), timeout, cwd=COQ)
@@ -121,7 +121,7 @@ def make(targets: t.Sequence[str], timeout: int = 1500) -> dict:
 THM_RE = re.compile(r"^\s*(Theorem|Example)\s+([A-Za-z0-9_']+)", re.M)
 
 
-def compile_properties(prop: str, timeout: int = 900) -> dict:
+def compile_properties(prop: str, timeout: int = 300) -> dict:
     """Force-compile coq/Properties/<prop>.v and account for every Theorem in it:
     each must be followed by a Print Assumptions whose output is admissible."""
     rel = f"Properties/{prop}.v"
